@@ -56,37 +56,37 @@ type reqSpec struct {
 }
 
 type reqResult struct {
-	Spec      *reqSpec
-	Answered  bool
-	Err       error
-	Class     string // ok | conflict | insufficient | already-reverted | revert-occurring | not-found | ik-taken | other-error | panic | unanswered
-	Tx        *ledger.Transaction
-	Panic     interface{}
-	LogsAtReturn int // persisted log count when the request returned
+	Spec               *reqSpec
+	Answered           bool
+	Err                error
+	Class              string // ok | conflict | insufficient | already-reverted | revert-occurring | not-found | ik-taken | other-error | panic | unanswered
+	Tx                 *ledger.Transaction
+	Panic              interface{}
+	LogsAtReturn       int // persisted log count when the request returned
 	RowPresentAtReturn bool
-	Gen       int
+	Gen                int
 }
 
 type worldSpec struct {
-	Name       string
-	Seed       func(st *memstore.Store)
-	Gen1, Gen2 []reqSpec
-	Crash      bool // a crash may be injected at any point (one per execution)
+	Name        string
+	Seed        func(st *memstore.Store)
+	Gen1, Gen2  []reqSpec
+	Crash       bool // a crash may be injected at any point (one per execution)
 	FaultInsert bool // InsertLogs may fail (one deviation each)
-	FaultReads bool // store reads may fail
+	FaultReads  bool // store reads may fail
 }
 
 type worldRun struct {
-	Spec     *worldSpec
-	Store    *memstore.Store
-	Pub      *engineh.Publisher
-	Results  []*reqResult
-	Reason1  verifrt.Reason
-	Reason2  verifrt.Reason
-	Crashed  bool // the process died (crash choice or daemon panic) during generation 1
+	Spec        *worldSpec
+	Store       *memstore.Store
+	Pub         *engineh.Publisher
+	Results     []*reqResult
+	Reason1     verifrt.Reason
+	Reason2     verifrt.Reason
+	Crashed     bool // the process died (crash choice or daemon panic) during generation 1
 	DaemonPanic interface{}
-	Pending  []string
-	SeedLen  int
+	Pending     []string
+	SeedLen     int
 }
 
 func classify(err error) string {
